@@ -16,6 +16,7 @@ import Model.Jl
 import Proofs.Row
 import Proofs.JlDescriptor
 import Proofs.FlowTieAll
+import Proofs.JlTie
 
 namespace Jl.C19
 open Jl Jl.Value Jl.Template Jl.JlCmd
@@ -190,5 +191,39 @@ theorem inline_pair_split (a b : Bytes) (h : 0x3A ∉ a) :
 theorem library_flow_is_the_source :
     Gen.flowTable.known = true ∧ Gen.flowTable = FlowSpec.expectedFlow :=
   ⟨FlowTie.flow_known, FlowTie.flow_as_modelled⟩
+
+
+/-! ### The command itself, read from the source (Proofs/JlTie)
+
+`extract/jlfacts.go` runs the functions of `cmd/jl` through the symbolic executor on every run
+(`Gen.JlFacts`). -/
+
+open Jl.JlCmd in
+/-- As written today: a column descriptor is split at its FIRST colon (`splitColon`), a descriptor
+    is read with the regular expression `Proofs/JlDescriptor` is about (format name in group 1,
+    raw type in group 2, unknown names giving Auto / no raw type) — the model's `parseDescriptor` —,
+    the definition file is read first and an explicit `-t` REPLACES it — the model's
+    `createTemplate` —, and the processor the command installs logs the failure and carries on. -/
+theorem command_is_the_source :
+    Gen.jlFacts.known = true ∧
+    (∀ s : Bytes, JlTie.splitG Gen.jlFacts.inlineRoute s = some (splitColon s)) ∧
+    (∀ s : Bytes, JlTie.parseDescriptorG Gen.jlFacts.descriptor s = some (parseDescriptor s)) ∧
+    (∀ (env : Value.Env) (file : List ColDef) (inline : Option (List ColDef)),
+      JlTie.createTemplateG Gen.jlFacts.createTemplate env file inline =
+        some (createTemplate env file inline)) ∧
+    JlTie.procG Gen.jlFacts.processor = some .tolerant :=
+  ⟨JlTie.jl_facts_known, JlTie.split_is_splitColon, JlTie.parseDescriptor_is_parseDescriptor,
+   JlTie.createTemplate_is_createTemplate, JlTie.processor_is_tolerant.1⟩
+
+/-- Standard output is handed to the exporter (and asked for its descriptor by the colour test),
+    nothing else; nothing is printed without a writer; the importer reads with the first template
+    of the pair and the exporter writes with the second; a template error ends the process with a
+    non-zero status, a stream error does not. -/
+theorem command_streams_are_the_source :
+    (Gen.jlFacts.stdStreams.filter fun e => e.2.1 == "os.Stdout") =
+      [("computeColor", "os.Stdout", ".Fd"), ("run", "os.Stdout", ".GetExporter")]
+    ∧ Gen.jlFacts.printCalls = []
+    ∧ ∃ code, Gen.jlFacts.run = .stream code 0 "Stdin" 1 "Stdout" ∧ code ≠ 0 :=
+  JlTie.streams_as_modelled
 
 end Jl.C19
